@@ -1,5 +1,287 @@
 import Driver.Util
+import KavaVerif.Model.Accumulator
+/-!
+  C09 driver.  Each case line carries the implementation's observed input / pre-state, the operation,
+  `=>`, the implementation's result class and observed output / post-state.  Every handler
+  (1) evaluates the property predicate on the implementation's own observation (PREDFAIL, independent
+      of the model) and (2) runs the Lean model on the observed input and compares (MISMATCH).
+
+  All Dec values are mantissas (value · 10^18); times are Unix nanoseconds.
+
+  c09.acc    prev now start stop rate T I => cls prev' I' d secs
+             real `types.Accumulator` (one reward denom per line); `d`, `secs` are what the real
+             getTimeElapsedWithinLimits / calculateNewRewards(rate 1, T 1) report for the same call
+  c09.chain  prev0 start stop times ds prevN        a whole block partition driven through one Accumulator
+  c09.reward old new shares => cls amount           real `Keeper.CalculateSingleReward`
+  c09.kacc   src prevFound prev now start stop rate T I => cls prev' I'      Accumulate<Source>Rewards in BeginBlocker
+  c09.kchange src u I s i r => cls s' i' r'         one source-module message of user u (lists over users)
+  c09.kpend  src I s i r => rs                      GetSynchronized<Source>Claim for every user
+  c09.kclaim src u factor now claimEnd macc I s i r => cls i' r' paid maccDelta
+  c09.sum    src T s                                Σ source shares = total source shares
+  c09.bound  src nusers nsyncs emission sumT credited
+-/
 namespace Drv.C09
+open KV KV.Acc
+
+def clsOf {α : Type} : Res α → String
+  | .ok _ => "ok" | .err => "err" | .panic => "panic"
+
+/-- list entries that may be absent ("x") -/
+def optInts? (s : String) : Option (List (Option Int)) :=
+  (strs s).mapM fun t => if t == "x" then some none else (int? t).map some
+
+def clip (t start stop : Int) : Int := min (max t start) stop
+
+/-- effective stored index: an absent entry is read as zero by the code; with zero shares the next
+    event re-initialises it to the global index, which is what the model keeps -/
+def effIdx (I : Int) (s : Int) (i : Option Int) : Int :=
+  match i with
+  | some v => v
+  | none => if s == 0 then I else 0
+
+def mkSt (I T prev : Int) (s : List Int) (i : List (Option Int)) (r : List Int) : St :=
+  { I := I, T := T, prev := prev,
+    u := fun a => { s := s.getD a 0, i := effIdx I (s.getD a 0) ((i.getD a none)), r := r.getD a 0 } }
+
+def idxEq (model : Int) (s' : Int) (impl : Option Int) : Bool :=
+  match impl with
+  | some v => v == model
+  | none => s' == 0 || model == 0
+
+/-- |x·P² − d·s| ≤ (P² + P)/2 : the two half-even roundings of `CalculateSingleReward` -/
+def rewardWithinRounding (x d s : Int) : Bool :=
+  2 * (x * P * P - d * s) ≤ P * P + P && 2 * (d * s - x * P * P) ≤ P * P + P
+
+def handleAcc : Handler
+  | [prev, now, start, stop, rate, T, I, _, cls, prev', I', d, secs] =>
+    match int? prev, int? now, int? start, int? stop, int? rate, int? T, int? I with
+    | some prev, some now, some start, some stop, some rate, some T, some I =>
+      let σ : St := { I := I, T := T, prev := prev, u := fun _ => default }
+      let res := accumulate ⟨start, stop, rate⟩ σ now
+      if cls == "panic" then
+        -- BeginBlocker must not panic for a valid period and non-decreasing block times
+        if prev ≤ now && start ≤ stop then predfail "C09_window" "panic-on-valid-input"
+        else expectEq "class" (clsOf res) cls
+      else
+      match int? prev', int? I', int? d, int? secs with
+      | some prev', some I', some d, some secs =>
+        -- (1) property predicates on the implementation's observation
+        if prev' != min stop now then predfail "C09_window" s!"accrual-time prev'={prev'}"
+        else if (now ≤ start || stop ≤ prev) && I' != I then predfail "C09_window" "accrued-outside-window"
+        else if d != (let x := clip now start stop - clip prev start stop; if x > maxDur then maxDur else x) then
+          predfail "C09_window" s!"duration d={d}"
+        else if d == 0 && secs != 0 then predfail "C09_window" "seconds-for-empty-overlap"
+        else if secs < 0 || 2 * (secs * NS - d) > NS + 2 || 2 * (d - secs * NS) > NS + 2 then
+          predfail "C09_window" s!"seconds-not-nearest d={d} secs={secs}"
+        else if rate ≥ 0 && I' < I then predfail "C09_no_over_distribution" "index-decreased"
+        else if T > 0 && 2 * (I' - I) * T > 2 * rate * secs * P + T then
+          predfail "C09_no_over_distribution" "block-increment-exceeds-emission"
+        else if T ≤ 0 && I' != I then predfail "C09_no_over_distribution" "accrued-with-no-shares"
+        else
+        -- (2) model
+        match res with
+        | .ok σ' =>
+          allOk [expectEq "prev" (toString σ'.prev) (toString prev'), expectEq "I" (toString σ'.I) (toString I'),
+                 expectEq "d" (toString ((elapsed prev now start stop).getD (-1))) (toString d),
+                 expectEq "secs" (toString (goSeconds d)) (toString secs)]
+        | r => mismatch "class" (clsOf r) cls
+      | _, _, _, _ => badInput "post"
+    | _, _, _, _, _, _, _ => badInput "parse"
+  | _ => badInput "arity"
+
+def handleChain : Handler
+  | [prev0, start, stop, times, ds, prevN] =>
+    match int? prev0, int? start, int? stop, ints? times, ints? ds, int? prevN with
+    | some prev0, some start, some stop, some times, some ds, some prevN =>
+      let tN := times.getLast?.getD prev0
+      let total := ds.foldl (· + ·) 0
+      if ds.any (· < 0) then predfail "C09_window" "negative-duration"
+      else if total != clip tN start stop - clip prev0 start stop then
+        predfail "C09_window" s!"instants-counted-twice-or-missed total={total}"
+      else if !times.isEmpty && prevN != min stop tN then predfail "C09_window" "final-accrual-time"
+      else "ok"
+    | _, _, _, _, _, _ => badInput "parse"
+  | _ => badInput "arity"
+
+def handleReward : Handler
+  | [old, new, shares, _, cls, amount] =>
+    match int? old, int? new, int? shares with
+    | some old, some new, some shares =>
+      match singleReward old new shares with
+      | none => expectEq "class" "err" cls
+      | some x =>
+        if cls != "ok" then mismatch "class" "ok" cls
+        else match int? amount with
+          | some a =>
+            if !rewardWithinRounding a (new - old) shares then predfail "C09_integral" "reward-rounding-exceeds-one-unit"
+            else expectEq "reward" (toString x) (toString a)
+          | none => badInput "amount"
+    | _, _, _ => badInput "parse"
+  | _ => badInput "arity"
+
+def handleKAcc : Handler
+  | [_src, prevFound, prev, now, start, stop, rate, T, I, _, cls, prev', I'] =>
+    match bool? prevFound, int? prev, int? now, int? start, int? stop, int? rate, int? T, int? I with
+    | some pf, some prev, some now, some start, some stop, some rate, some T, some I =>
+      let σ : St := { I := I, T := T, prev := prev, u := fun _ => default }
+      let res := keeperAccumulate ⟨start, stop, rate⟩ σ pf now
+      let prevE := if pf then prev else now
+      if cls != "ok" then
+        if prevE ≤ now && start ≤ stop then predfail "C09_window" "begin-blocker-panic"
+        else expectEq "class" (clsOf res) cls
+      else
+      match int? prev', int? I' with
+      | some prev', some I' =>
+        let d := (let x := clip now start stop - clip prevE start stop; if x > maxDur then maxDur else x)
+        -- whole seconds as the module counts them, from the observed window only
+        if prev' != min stop now then predfail "C09_window" s!"accrual-time prev'={prev'}"
+        else if (now ≤ start || stop ≤ prevE) && I' != I then predfail "C09_window" "accrued-outside-window"
+        else if rate ≥ 0 && I' < I then predfail "C09_no_over_distribution" "index-decreased"
+        else if T > 0 && 2 * (I' - I) * T > 2 * rate * (goSeconds d) * P + T then
+          predfail "C09_no_over_distribution" "block-increment-exceeds-emission"
+        else if T ≤ 0 && I' != I then predfail "C09_no_over_distribution" "accrued-with-no-shares"
+        else match res with
+          | .ok σ' => allOk [expectEq "prev" (toString σ'.prev) (toString prev'), expectEq "I" (toString σ'.I) (toString I')]
+          | r => mismatch "class" (clsOf r) cls
+      | _, _ => badInput "post"
+    | _, _, _, _, _, _, _, _ => badInput "parse"
+  | _ => badInput "arity"
+
+def range (n : Nat) : List Nat := List.range n
+
+def handleKChange : Handler
+  | [src, u, I, s, i, r, _, cls, s', i', r'] =>
+    match nat? u, int? I, ints? s, optInts? i, ints? r with
+    | some u, some I, some s, some i, some r =>
+      let n := s.length
+      if cls != "ok" then
+        -- a failed message is rolled back: nothing may change
+        if s' == showInts s && r' == showInts r then "ok" else predfail "C09_frame" s!"{src}-failed-op-changed-state"
+      else
+      match ints? s', optInts? i', ints? r' with
+      | some s', some i', some r' =>
+        let σ := mkSt I 0 0 s i r
+        -- (1) C09_frame on the implementation's observation
+        let othersSame := (range n).all fun v =>
+          v == u || (s'.getD v 0 == s.getD v 0 && r'.getD v 0 == r.getD v 0 &&
+                     (i'.getD v none == i.getD v none))
+        if !othersSame then predfail "C09_frame" s!"{src}-other-user-changed"
+        else if r'.getD u 0 < r.getD u 0 then predfail "C09_frame" s!"{src}-accrued-reward-decreased"
+        else
+          let changed := s'.getD u 0 != s.getD u 0
+          let want := (σ.u u).r + pending σ u
+          let synced := r'.getD u 0 == want && idxEq I (s'.getD u 0) (i'.getD u none)
+          let untouched := r'.getD u 0 == r.getD u 0 && i'.getD u none == i.getD u none
+          if changed && !synced then
+            predfail "C09_frame" s!"{src}-share-change-without-sync-of-pre-change-shares want={want} got={r'.getD u 0}"
+          else if !changed && !synced && !untouched then
+            predfail "C09_frame" s!"{src}-own-reward-changed-by-other-than-pending want={want} got={r'.getD u 0}"
+          else
+          -- (2) model: hook then write (only when the source really changed the shares)
+          if changed then
+            match change σ u (s'.getD u 0) with
+            | .ok σ' =>
+              allOk ((range n).map fun v =>
+                allOk [expectEq s!"r{v}" (toString (σ'.u v).r) (toString (r'.getD v 0)),
+                       if idxEq (σ'.u v).i (s'.getD v 0) (i'.getD v none) then "ok"
+                       else mismatch s!"i{v}" (toString (σ'.u v).i) (toString (i'.getD v none))])
+            | res => mismatch "class" (clsOf res) cls
+          else "ok"
+      | _, _, _ => badInput "post"
+    | _, _, _, _, _ => badInput "parse"
+  | _ => badInput "arity"
+
+def handleKPend : Handler
+  | [src, I, s, i, r, _, rs] =>
+    match int? I, ints? s, optInts? i, ints? r, ints? rs with
+    | some I, some s, some i, some r, some rs =>
+      let σ := mkSt I 0 0 s i r
+      allOk ((range s.length).map fun v =>
+        let d := I - (σ.u v).i
+        let got := rs.getD v 0 - r.getD v 0
+        if d < 0 then predfail "C09_integral" s!"{src}-index-above-global"
+        else if !rewardWithinRounding got d (s.getD v 0) then predfail "C09_integral" s!"{src}-pending-rounding-exceeds-one-unit"
+        else expectEq s!"synced{v}" (toString ((σ.u v).r + pending σ v)) (toString (rs.getD v 0)))
+    | _, _, _, _, _ => badInput "parse"
+  | _ => badInput "arity"
+
+def handleKClaim : Handler
+  | [src, u, factor, now, claimEnd, macc, I, s, i, r, _, cls, i', r', paid, maccDelta] =>
+    match nat? u, int? factor, int? now, int? claimEnd, int? macc, int? I, ints? s, optInts? i, ints? r with
+    | some u, some factor, some now, some claimEnd, some macc, some I, some s, some i, some r =>
+      let σ := mkSt I 0 0 s i r
+      let res := claim σ u factor now claimEnd macc
+      if cls != "ok" then
+        -- (1) refused claims: after the deadline always; otherwise only a zero payout / empty account
+        let accrued := (σ.u u).r + pending σ u
+        let pay := Dec.roundInt (Dec.mul (Dec.ofInt accrued) ⟨factor⟩)
+        if now ≤ claimEnd && pay > 0 && pay ≤ macc then predfail "C09_claim" s!"{src}-refused-payable-claim"
+        else if r' != showInts r then predfail "C09_claim" s!"{src}-failed-claim-changed-state"
+        else expectEq "class" (clsOf res) cls
+      else
+      match optInts? i', ints? r', int? paid, int? maccDelta with
+      | some i', some r', some paid, some maccDelta =>
+        let accrued := (σ.u u).r + pending σ u
+        if now > claimEnd then predfail "C09_claim" s!"{src}-accepted-after-claim-end"
+        else if paid != Dec.roundInt (Dec.mul (Dec.ofInt accrued) ⟨factor⟩) then
+          predfail "C09_claim" s!"{src}-paid-not-accrued-times-multiplier paid={paid} accrued={accrued}"
+        else if maccDelta != -paid then predfail "C09_claim" s!"{src}-not-paid-from-incentive-account"
+        else if r'.getD u 0 != 0 then predfail "C09_claim" s!"{src}-claim-not-reset"
+        else if paid == 0 then predfail "C09_claim" s!"{src}-zero-claim-accepted"
+        else if !((range s.length).all fun v => v == u || (r'.getD v 0 == r.getD v 0 && i'.getD v none == i.getD v none)) then
+          predfail "C09_frame" s!"{src}-claim-changed-other-user"
+        else match res with
+          | .ok (σ', pay) =>
+            allOk [expectEq "paid" (toString pay) (toString paid),
+                   expectEq "r" (toString (σ'.u u).r) (toString (r'.getD u 0)),
+                   if idxEq (σ'.u u).i (s.getD u 0) (i'.getD u none) then "ok"
+                   else mismatch "i" (toString (σ'.u u).i) (toString (i'.getD u none))]
+          | rr => mismatch "class" (clsOf rr) cls
+      | _, _, _, _ => badInput "post"
+    | _, _, _, _, _, _, _, _, _ => badInput "parse"
+  | _ => badInput "arity"
+
+def handleSum : Handler
+  | [src, T, s] =>
+    match int? T, ints? s with
+    | some T, some s =>
+      let tot := s.foldl (· + ·) 0
+      if tot == T then "ok"
+      else if tot > T then predfail "C09_shares_sum" s!"{src}-user-shares-exceed-total sum={tot} T={T}"
+      else predfail "C09_shares_sum" s!"{src}-user-shares-below-total sum={tot} T={T}"
+    | _, _ => badInput "parse"
+  | _ => badInput "arity"
+
+/-- `C09_no_over_distribution` on the real claims:
+    2·P²·credited ≤ 2·P·emission + ΣT + (nsyncs + nusers)·(P² + P)
+    (emission = Σ_b rate·secs_b as a Dec mantissa over blocks with T_b > 0, ΣT = Σ_b T_b mantissas) -/
+def handleBound : Handler
+  | [src, nusers, nsyncs, emission, sumT, credited] =>
+    match int? nusers, int? nsyncs, int? emission, int? sumT, int? credited with
+    | some nu, some ns, some em, some sT, some cr =>
+      if 2 * P * P * cr ≤ 2 * P * em + sT + (ns + nu) * (P * P + P) then "ok"
+      else predfail "C09_no_over_distribution" s!"{src}-credited-exceeds-emission credited={cr} emission={em}"
+    | _, _, _, _, _ => badInput "parse"
+  | _ => badInput "arity"
+
+def handleSecs : Handler
+  | [d, _, secs] =>
+    match int? d with
+    | some d => expectEq "secs" (toString (goSeconds d)) secs
+    | none => badInput "parse"
+  | _ => badInput "arity"
+
 /-- handlers of property C09: (command name, handler) -/
-def handlers : List (String × Handler) := []
+def handlers : List (String × Handler) := [
+  ("c09.secs", handleSecs),
+  ("c09.acc", handleAcc),
+  ("c09.chain", handleChain),
+  ("c09.reward", handleReward),
+  ("c09.kacc", handleKAcc),
+  ("c09.kchange", handleKChange),
+  ("c09.kpend", handleKPend),
+  ("c09.kclaim", handleKClaim),
+  ("c09.sum", handleSum),
+  ("c09.bound", handleBound)
+]
 end Drv.C09
